@@ -349,8 +349,8 @@ func (vc *FnVC) mergeInto(b *ssa.BasicBlock) *State {
 			if !ok {
 				break
 			}
-			env.phiOverride[phi.Comment] = vc.phiIncoming(est, phi, b, e.from)
-			env.phiByValue(phi, env.phiOverride[phi.Comment])
+			env.phiOverride[phiAlias(phi.Comment)] = vc.phiIncoming(est, phi, b, e.from)
+			env.phiByValue(phi, env.phiOverride[phiAlias(phi.Comment)])
 		}
 		for i, inv := range invs {
 			t, err := vc.evalBool(env, inv.E)
@@ -403,7 +403,7 @@ func (vc *FnVC) mergeInto(b *ssa.BasicBlock) *State {
 			vc.assume(st, sx("<=", "(- 1)", v.S))
 		}
 		if phi.Comment != "" {
-			li.phiVals[phi.Comment] = v
+			li.phiVals[phiAlias(phi.Comment)] = v
 		}
 	}
 	// 3. assume invariants
@@ -473,7 +473,7 @@ func (vc *FnVC) checkBackEdge(from, header *ssa.BasicBlock, st *State) {
 			break
 		}
 		iv := vc.phiIncoming(st, phi, header, from)
-		env.phiOverride[phi.Comment] = iv
+		env.phiOverride[phiAlias(phi.Comment)] = iv
 		env.phiByValue(phi, iv)
 	}
 	vc.curInstr = nil
@@ -1240,4 +1240,13 @@ func (vc *FnVC) isLastReturn() bool {
 		}
 	}
 	return true
+}
+
+// phiAlias gives the compiler-generated loop variables a name usable in invariants:
+// range-over-slice index -> rangeindex, range-over-int counter (for i := range n) -> rangeiter.
+func phiAlias(comment string) string {
+	if comment == "rangeint.iter" {
+		return "rangeiter"
+	}
+	return comment
 }
